@@ -214,9 +214,9 @@ example :
     ((expand [] p : Except IErr (Exp α)).toOption.map (fun _ => ())) = some () := by
   refine ⟨?_, ?_⟩
   · cases h : unroll [] (ME.agg .sum [⟨["i"], .range (.lit 0) (.lit 3) false⟩] (.cvar "x" [.var "i"])) with
-    | error e => simp [unroll, iterate, envs, It.shapeOk, declareAll, Env.get, Src.rows, CE.eval, rangeVals, intsFrom, mapE, bindRow, unrollIdx, explicit] at h
+    | error e => simp [unroll, iterate, envs, It.shapeOk, declareAll, Env.get, Src.rows, CE.eval, rangeTooLarge, rangeCap, rangeVals, intsFrom, mapE, bindRow, unrollIdx, explicit] at h
     | ok e' => simp [unroll_is_flat [] _ e' h]
-  · simp [expand, iterate, envs, It.shapeOk, declareAll, Env.get, Src.rows, CE.eval, rangeVals, intsFrom, mapE, bindRow, idxFrag, aggregate]
+  · simp [expand, iterate, envs, It.shapeOk, declareAll, Env.get, Src.rows, CE.eval, rangeTooLarge, rangeCap, rangeVals, intsFrom, mapE, bindRow, idxFrag, aggregate]
 
 /-- **whole programs** (`Rooc/Pre/Program.lean`: `where` constants, `define` declarations with
 iterations and evaluated bounds, duplicate detection, objective, named and `for`-quantified constraints,
